@@ -65,6 +65,8 @@ type recorder struct {
 	actions []*inlineAction
 	tasks   map[string]*modules.Task
 	lastEvt atomic.Int64 // unix nano of the last recorded event
+	// queued is called whenever a task is put into a queue (from outside, from its own body or by an inline action)
+	queued func(name string)
 }
 
 type inlineAction struct {
@@ -72,8 +74,11 @@ type inlineAction struct {
 	Task  string `json:"task"`
 	Nth   int    `json:"nth"`
 	Do    string `json:"do"` // cancel | queue | prioritize | asap
-	seen  int
-	fired bool
+	// SleepMS keeps the portbase goroutine parked at the yield point after the action (e.g. long enough for a small max
+	// delay of the re-submitted task to expire while the handler is between its state checks and the execution)
+	SleepMS int `json:"sleep_ms,omitempty"`
+	seen    int
+	fired   bool
 }
 
 var cur atomic.Pointer[recorder]
@@ -119,6 +124,9 @@ func hook(point, ctx string) {
 	r.mu.Unlock()
 	if fire != nil && t != nil {
 		r.apply(t, ctx, fire.Do, "inline@"+point)
+		if fire.SleepMS > 0 {
+			time.Sleep(time.Duration(fire.SleepMS) * time.Millisecond)
+		}
 	}
 }
 
@@ -132,14 +140,23 @@ func (r *recorder) apply(t *modules.Task, name, do, how string) {
 		t.Cancel()
 		r.rec("cancel-return", name, how)
 	case "queue":
+		r.noteQueued(name)
 		r.rec("submit:queue", name, how)
 		t.Queue()
 	case "prioritize":
+		r.noteQueued(name)
 		r.rec("submit:prioritize", name, how)
 		t.QueuePrioritized()
 	case "asap":
+		r.noteQueued(name)
 		r.rec("submit:asap", name, how)
 		t.StartASAP()
+	}
+}
+
+func (r *recorder) noteQueued(name string) {
+	if r.queued != nil {
+		r.queued(name)
 	}
 }
 
@@ -184,7 +201,8 @@ func genCase(t *rapid.T, prefix string) *caseSpec {
 		o.Do = rapid.SampledFrom([]string{"queue", "queue", "prioritize", "asap", "schedule", "schedule", "cancel", "sleep", "sleep"}).Draw(t, "do")
 		switch o.Do {
 		case "schedule":
-			o.MS = rapid.SampledFrom([]int{5, 10, 25, 40}).Draw(t, "in")
+			// mostly soon; now and then far in the future (a later, earlier re-schedule must still be honoured)
+			o.MS = rapid.SampledFrom([]int{5, 10, 25, 40, 5, 10, 25, 40, 3600 * 1000}).Draw(t, "in")
 		case "sleep":
 			o.MS = rapid.SampledFrom([]int{1, 4, 10, 30}).Draw(t, "sleep")
 		}
@@ -193,10 +211,11 @@ func genCase(t *rapid.T, prefix string) *caseSpec {
 	na := rapid.IntRange(0, 2).Draw(t, "inline")
 	for i := 0; i < na; i++ {
 		c.Actions = append(c.Actions, &inlineAction{
-			Point: rapid.SampledFrom([]string{"tasks.handler.popped", "tasks.run.checked", "tasks.exec.returned"}).Draw(t, "point"),
-			Task:  c.Tasks[rapid.IntRange(0, n-1).Draw(t, "atask")].Name,
-			Nth:   rapid.IntRange(1, 2).Draw(t, "nth"),
-			Do:    rapid.SampledFrom([]string{"cancel", "queue", "asap", "prioritize"}).Draw(t, "ado"),
+			Point:   rapid.SampledFrom([]string{"tasks.handler.popped", "tasks.run.checked", "tasks.exec.returned"}).Draw(t, "point"),
+			Task:    c.Tasks[rapid.IntRange(0, n-1).Draw(t, "atask")].Name,
+			Nth:     rapid.IntRange(1, 2).Draw(t, "nth"),
+			Do:      rapid.SampledFrom([]string{"cancel", "queue", "asap", "prioritize"}).Draw(t, "ado"),
+			SleepMS: rapid.SampledFrom([]int{0, 0, 30}).Draw(t, "asleep"),
 		})
 	}
 	return c
@@ -214,12 +233,14 @@ type runState struct {
 	runs      []int32
 	schedAt   []atomic.Int64 // earliest executeAt of the Schedule calls since the task's last begin (unix nano), 0 = none
 	onlySched []atomic.Bool  // task has only ever been scheduled (never queued)
+	lastSched []atomic.Int64 // executeAt of the most recent Schedule call (unix nano)
 }
 
 // noteSchedule remembers the earliest time any Schedule call since the task's last begin asked for: a run is
 // legitimate once the time of one of those calls has come (a later re-schedule does not recall a task that is
 // already queued because an earlier scheduled time came).
 func (rs *runState) noteSchedule(i int, at time.Time) {
+	rs.lastSched[i].Store(at.UnixNano())
 	for {
 		old := rs.schedAt[i].Load()
 		if old != 0 && old <= at.UnixNano() {
@@ -235,8 +256,17 @@ func (c *caseSpec) start(prefix string) *runState {
 	r := &recorder{tasks: map[string]*modules.Task{}, actions: c.Actions}
 	casePrefix.Store(prefix)
 	rs := &runState{r: r, tasks: make([]*modules.Task, len(c.Tasks)), gauges: make([]int32, len(c.Tasks)), overlaps: make([]int32, len(c.Tasks)),
-		runs: make([]int32, len(c.Tasks)), schedAt: make([]atomic.Int64, len(c.Tasks)), onlySched: make([]atomic.Bool, len(c.Tasks))}
+		runs: make([]int32, len(c.Tasks)), schedAt: make([]atomic.Int64, len(c.Tasks)), onlySched: make([]atomic.Bool, len(c.Tasks)), lastSched: make([]atomic.Int64, len(c.Tasks))}
 	m := mods[c.Module]
+	idx := map[string]int{}
+	for i := range c.Tasks {
+		idx[c.Tasks[i].Name] = i
+	}
+	r.queued = func(name string) {
+		if i, ok := idx[name]; ok {
+			rs.onlySched[i].Store(false)
+		}
+	}
 	for i := range c.Tasks {
 		i := i
 		ts := c.Tasks[i]
@@ -333,6 +363,9 @@ func (c *caseSpec) quiesce(rs *runState) string {
 				// explicit schedules are at most 40 ms ahead and the small max delay is 20 ms; entries created by the default
 				// (1 min) or 1 h max delay belong to submissions that are also in a queue and disappear when the task runs
 				busy = c.Tasks[i].Name + " scheduled"
+				if ls := rs.lastSched[i].Load(); ls != 0 && time.Until(time.Unix(0, ls)) > 10*time.Minute {
+					busy = "" // explicitly scheduled for the far future and not re-scheduled since: not due in this case
+				}
 			}
 			if busy != "" {
 				break
@@ -353,9 +386,22 @@ func (c *caseSpec) quiesce(rs *runState) string {
 	}
 }
 
+type taskFinal struct{ canceled, scheduled bool }
+
+// finalStates reads the task flags at quiescence (before finish cancels everything).
+func (c *caseSpec) finalStates(rs *runState) []taskFinal {
+	out := make([]taskFinal, len(rs.tasks))
+	for i, t := range rs.tasks {
+		canceled, _, _, _, scheduled := t.VerifTaskState()
+		out[i] = taskFinal{canceled, scheduled}
+	}
+	return out
+}
+
 func (c *caseSpec) finish(rs *runState) {
 	for _, t := range rs.tasks {
 		t.Cancel()
+		t.Schedule(time.Time{}) // take far-future entries out of the schedule
 	}
 	// cancelled entries that are still in a queue are dropped when they are popped; give the handler a kick
 	time.Sleep(time.Millisecond)
@@ -383,7 +429,7 @@ func render(evs []event) string {
 }
 
 // judge checks clauses 1-4 on the recorded history.
-func (c *caseSpec) judge(t fatalf, rs *runState, stuck string) {
+func (c *caseSpec) judge(t fatalf, rs *runState, stuck string, final []taskFinal) {
 	evs := rs.r.events
 	fail := func(clause, format string, a ...any) {
 		t.Fatalf("%s: %s\ncase: %+v\nactions: %s\nevents:%s", clause, fmt.Sprintf(format, a...), *c, renderActions(c.Actions), render(evs))
@@ -439,7 +485,7 @@ func (c *caseSpec) judge(t fatalf, rs *runState, stuck string) {
 		if s.begins > s.submits {
 			fail("C07-4-too-often", "task %s was submitted %d times but began %d times", ts.Name, s.submits, s.begins)
 		}
-		canceled, _, _, _, scheduled := rs.tasks[i].VerifTaskState()
+		canceled, scheduled := final[i].canceled, final[i].scheduled
 		if s.submits > 0 && s.cancelReturn == 0 && !canceled && !scheduled && s.lastBegin < s.lastSubmit {
 			fail("C07-4-not-executed", "task %s was not executed after its last submission (seq %d, last begin seq %d) although it was never cancelled and nothing is waiting any more", ts.Name, s.lastSubmit, s.lastBegin)
 		}
@@ -449,7 +495,7 @@ func (c *caseSpec) judge(t fatalf, rs *runState, stuck string) {
 func renderActions(as []*inlineAction) string {
 	var sb strings.Builder
 	for _, a := range as {
-		fmt.Fprintf(&sb, "{%s %s nth=%d do=%s fired=%v} ", a.Point, a.Task, a.Nth, a.Do, a.fired)
+		fmt.Fprintf(&sb, "{%s %s nth=%d do=%s sleep=%dms fired=%v} ", a.Point, a.Task, a.Nth, a.Do, a.SleepMS, a.fired)
 	}
 	return sb.String()
 }
@@ -461,8 +507,9 @@ func TestPropTaskHistories(t *testing.T) {
 		rs := c.start(prefix)
 		c.execOps(rs)
 		stuck := c.quiesce(rs)
+		final := c.finalStates(rs)
 		c.finish(rs)
-		c.judge(t, rs, stuck)
+		c.judge(t, rs, stuck, final)
 
 		// statistics
 		subs, cancels, fired, resub := 0, 0, 0, 0
@@ -671,7 +718,8 @@ func TestRegStaleScheduleTimerStartsTaskEarly(t *testing.T) {
 		rs := c.start(prefix)
 		c.execOps(rs)
 		stuck := c.quiesce(rs)
+		final := c.finalStates(rs)
 		c.finish(rs)
-		c.judge(t, rs, stuck)
+		c.judge(t, rs, stuck, final)
 	}
 }
